@@ -271,7 +271,7 @@ func ParentMain(p *Prop, tier string, seed uint64, self, raceSelf string) int {
 	if nw < 1 {
 		nw = 1
 	}
-	scratch, err := os.MkdirTemp("", "vcheck-"+p.ID+"-")
+	scratch, err := os.MkdirTemp(scratchBase(), "vcheck-"+p.ID+"-")
 	if err != nil {
 		fmt.Println("INCONCLUSIVE property=" + p.ID + " reason=no-scratch-dir")
 		return 2
@@ -304,7 +304,7 @@ func ParentMain(p *Prop, tier string, seed uint64, self, raceSelf string) int {
 				cmd.Stdout = &stderr
 				cmd.Env = append(os.Environ(), p.Env...)
 				if p.Race {
-					cmd.Env = append(cmd.Env, "GORACE=halt_on_error=0 log_path="+filepath.Join(scratch, fmt.Sprintf("race-%d-%d", k, attempt)))
+					cmd.Env = append(cmd.Env, "GORACE=halt_on_error=0 exitcode=0 log_path="+filepath.Join(scratch, fmt.Sprintf("race-%d-%d", k, attempt)))
 				}
 				runErr := cmd.Run()
 				last, open, hang := readRecords(out, agg, &mu)
@@ -694,4 +694,15 @@ func ReplayMain(path, self string) int {
 		return 1
 	}
 	return 0
+}
+
+// scratchBase prefers a memory file system (fsync-heavy sweeps), falling back to the default temp dir.
+func scratchBase() string {
+	if st, err := os.Stat("/dev/shm"); err == nil && st.IsDir() {
+		if d, err := os.MkdirTemp("/dev/shm", "vprobe-"); err == nil {
+			os.RemoveAll(d)
+			return "/dev/shm"
+		}
+	}
+	return ""
 }
